@@ -4,7 +4,7 @@ CONSTANTS
   MaxLen = 4
   MinLen = 0
   Variants = {"plain", "splice", "splice2", "bcmt", "bcmtnl", "lcmt"}
-  VarLen = 3
+  VarLen = 2
   Mode = "alpha"
   PerturbChars = {}
   Devs = {"NoDigraphs", "NoUCNIdent", "NoUCNEscape"}
